@@ -1729,11 +1729,15 @@ class Interp(Ops, Builtins, DynOps):
             return VBool(z3.And(*t.facts(v, ctx)))
         if name == "is_old":
             v = self.ev(e.args[0], fr)
+            if v.kind == "ref":       # a concrete container: it existed at entry iff it was built before the entry
+                return VBool((ctx.entry_addr is not None and v.addr < ctx.entry_addr) or v.addr in ctx.preexisting)
             return VBool(ctx.is_old(v.z))
         if name == "is_new":
             # allocated by the function under contract: inside its own verification "did not exist at entry";
             # at a call site additionally "not allocated when the call was made"
             v = self.ev(e.args[0], fr)
+            if v.kind == "ref":
+                return VBool(not ((ctx.entry_addr is not None and v.addr < ctx.entry_addr) or v.addr in ctx.preexisting))
             if self.call_alloc is not None:
                 return VBool(z3.And(z3.Not(ctx.is_old(v.z)), z3.Not(z3.Select(self.call_alloc, v.z)), v.z != 0))
             return VBool(z3.And(z3.Not(ctx.is_old(v.z)), v.z != 0))
